@@ -147,6 +147,14 @@ Theorem succeeds_once_input_given : forall sy pp inp, ranked sy = true -> 1 <= m
 Proof. exact input_given_then_meaning. Qed.
 Print Assumptions succeeds_once_input_given.
 
+(** Where the [Top] states of these theorems come from: a new simulation ([Top_init], C01),
+    and any state between two requests - for instance after the set_input requests every
+    correspondence case starts with - when its cache is read as the inputs. *)
+Theorem quiet_state_is_top_for_its_cache : forall sy pp s,
+  stack s = [] -> invalid s = [] -> Top sy pp (cache s) s.
+Proof. exact quiet_state_is_top. Qed.
+Print Assumptions quiet_state_is_top_for_its_cache.
+
 (** ** Non-vacuity *)
 
 Definition ex_pop : popu :=
